@@ -210,10 +210,16 @@ theorem stop_at_first (c : Ctx Z) (v : Int) (j : Nat) (z : Z) (us : List Rat)
   simp only at h
   simp [h]
 
-/-- a leaf with non-finite Hamiltonian (NaN / -inf log-density) is never in the slice and stops the tree -/
-theorem nonfinite_leaf_outside (c : Ctx Z) (z : Z) (h : c.ham z = none) :
+/-- a leaf whose Hamiltonian is NaN or -inf (NaN / -inf log-density) is never in the slice and stops the tree -/
+theorem nonfinite_leaf_outside (c : Ctx Z) (z : Z) (h : c.ham z = .nan ∨ c.ham z = .ninf) :
     inSlice c z = false ∧ notDiverged c z = false := by
-  simp [inSlice, notDiverged, h]
+  rcases h with h | h <;> simp [inSlice, notDiverged, h, XR.geRat, XR.gtRatShift]
+
+/-- a leaf with +inf Hamiltonian *is* counted in the slice (IEEE `log_u <= inf`); it is the top-level
+    finiteness guard that keeps the sampler from moving there (`nutsStep_coherent_finite`) -/
+theorem posinf_leaf_in_slice (c : Ctx Z) (z : Z) (h : c.ham z = .pinf) :
+    inSlice c z = true ∧ notDiverged c z = true := by
+  simp [inSlice, notDiverged, h, XR.geRat, XR.gtRatShift]
 
 /-- draws left over by `buildTree` are a suffix of the draws given -/
 lemma buildTree_suffix (c : Ctx Z) (v : Int) (j : Nat) (z : Z) (us : List Rat) :
@@ -319,7 +325,7 @@ theorem selected_in_slice (c : Ctx Z) (v : Int) (j : Nat) (z : Z) (us : List Rat
     candidate outside the slice replaces an in-slice one.  With the model's (strict) test the same
     instance keeps the in-slice candidate. -/
 theorem nonstrict_test_selects_outside_slice_at_u0 :
-    let c : Ctx Nat := { step := fun _ z => z + 1, ham := fun z => if z = 1 then some 0 else some (-5),
+    let c : Ctx Nat := { step := fun _ z => z + 1, ham := fun z => if z = 1 then .fin 0 else .fin (-5),
                          noUturn := fun _ _ => true, logu := -1, ham0 := 0 }
     let t := (buildTree c 1 1 0 [0]).1
     (t.n = 1 ∧ t.cand = 1 ∧ inSlice c t.cand = true) ∧
@@ -535,14 +541,14 @@ theorem loop_cur_inv (c : Ctx Z) (guard : Z → Bool) (P : Z → Prop) (hstep : 
       · simp only [hts]; exact h0
     · exact h0
 
-/-- **Experimental interface: a transition never moves to a non-finite point**, whatever the draws
-    (including `u = 0`), and the cached log-density/gradient always belong to the current point. -/
+/-- **Guarded interface: a transition never moves to a non-finite point** (NaN, +inf or -inf
+    log-density), whatever the draws (including `u = 0`), and the cached log-density/gradient always belong to the current point. -/
 theorem nutsStep_coherent_finite (t : Target) (eps logu ham0 : Rat) (md : Nat) (z0 : PS) (us : List Rat)
-    (h0 : z0.logd = t.logd z0.x ∧ z0.grad = t.grad z0.x) (hfin : z0.logd.isSome = true) :
-    let z := (nutsStep (psCtx t eps logu ham0) (fun z => z.logd.isSome) md z0 us).cur
-    (z.logd = t.logd z.x ∧ z.grad = t.grad z.x) ∧ z.logd.isSome = true := by
+    (h0 : z0.logd = t.logd z0.x ∧ z0.grad = t.grad z0.x) (hfin : z0.logd.isFinite = true) :
+    let z := (nutsStep (psCtx t eps logu ham0) (fun z => z.logd.isFinite) md z0 us).cur
+    (z.logd = t.logd z.x ∧ z.grad = t.grad z.x) ∧ z.logd.isFinite = true := by
   intro z
-  exact loop_cur_inv (psCtx t eps logu ham0) (fun z => z.logd.isSome)
+  exact loop_cur_inv (psCtx t eps logu ham0) (fun z => z.logd.isFinite)
     (fun z => z.logd = t.logd z.x ∧ z.grad = t.grad z.x)
     (fun v z => by simp [psCtx, psStep, leapfrog]) md (md + 1) _ ⟨h0, hfin⟩
 
